@@ -101,7 +101,10 @@ def distribution(ps):
 def _build(p):
     from npstructures import RaggedArray
     vals = _vals(p)
-    return RaggedArray(vals, list(p["lens"])), vals
+    # two cases in nine index an array that is itself a RESULT (a selection of all rows, a ufunc, a conversion, ...): a derived array
+    # must behave like a freshly built one
+    how = gens.DERIVATIONS[(p.get("vseed", 0) + p.get("variant", 0)) % len(gens.DERIVATIONS)]
+    return gens.derive_ra(RaggedArray(vals, list(p["lens"])), how), vals
 
 
 def run_impl(p):
